@@ -10,7 +10,10 @@ CHECKS = {}
 def chk(pid, category, technique, text, note, design):
     CHECKS[pid] = dict(category=category, technique=technique, text=text, note=note, design=design)
 
-exec(open(os.path.join(VD, "tools", "manifest_table.py")).read())
+NA = {}
+for fn in sorted(os.listdir(os.path.join(VD, "tools", "manifest.d"))):
+    if fn.endswith(".py"):
+        exec(open(os.path.join(VD, "tools", "manifest.d", fn)).read())
 
 ALL = ["C%02d" % i for i in range(1, 21)]
 NOT_BUILT = {}
